@@ -200,6 +200,13 @@ fn main() {
             record::record_len(&m["trace"], seed, n, &mut r);
             r
         }
+        ("record", Some("minmax")) => {
+            let mut r = Report::default();
+            let seed: u64 = m.get("seed").and_then(|s| s.parse().ok()).unwrap_or(1);
+            let n: usize = m.get("n").and_then(|s| s.parse().ok()).unwrap_or(500);
+            record::record_minmax(&m["trace"], seed, n, &mut r);
+            r
+        }
         ("record", Some("rayon")) => {
             let mut r = Report::default();
             let seed: u64 = m.get("seed").and_then(|s| s.parse().ok()).unwrap_or(1);
